@@ -127,6 +127,7 @@ def check(col, prog, tier, profile, fixture=None):
     # the searches descend through push_at: a pending modification must reach the children in order (seeded change C02-j)
     c01.rule_helpers_geometry(col, R, "R3", sfx, only={"push_at", "merge_at", "rebuild_empty"})   # the node aggregates the searches read are merge(left child, right child)
     c01.rule_routing(col, R, "R4", sfx, only=set(names))
+    c01.rule_build_empty(col, R, "R3", sfx)   # the aggregates the searches read in a tree made by new(n, value)
 
     for nm, direction in SEARCHES:
         b = R.fn[nm]
